@@ -125,7 +125,11 @@ PROPS["C20"] = dict(
                 "term, in all cache modes (induction over histories); stencil indices stay in bounds; the interior cubic table reproduces every cubic and "
                 "solves the weighted normal equations. Hypotheses (cell location inside the raster, cache window within one period) are checked by the "
                 "driver on every query/CacheArea of the run. The stateful model executes every sampled history against the implementation; "
-                "bit-for-bit independence of history and cache mode is also checked implementation-vs-implementation."),
+                "bit-for-bit independence of history and cache mode is also checked implementation-vs-implementation. "
+                "Added (proved, all positions, every raster width 2 ≤ w ≤ 2^31): concrete_envOK / concrete_run_eq_spec — the binary64 cell location "
+                "⌊lon·rnd(w/360)⌋ wrapped by ±w stays in [0, w), from the monotonicity of correct rounding (Proofs/RoundQ.lean IsRN.mono, "
+                "Proofs/DivTo.lean divTo_isRN, Proofs/GeoidLoc.lean locF_ix_range); the location hypothesis of EnvOK is thereby discharged for the "
+                "executed model (the cache-window hypothesis WindowOK remains checked per CacheArea)."),
     level_note=("cubic tables and table sizes regenerated from Geoid.cpp each run; hand-written model of height / rawval / CacheArea; iostream header parsing "
                 "is modelled only structurally (the harness composes the header from fields)"),
     technique="Lean 4 proof by induction over operation histories (refinement to a state-free spec) + exact model/implementation correspondence",
